@@ -242,4 +242,8 @@ def run(ctx, rep) -> None:
 
     rep.rule("C11.4", "assembly of the eigen inverse root from the shifted eigenvalues: X = (Q * lambda^(-1/root)) @ Q^T with the decomposed matrix being A (or A + eps I) (exact term comparison)")
     rep.attempt("eigen_root_arithmetic", eigen_root_arithmetic, ctx, rep, "C11.4")
+    from .common import tensor_arguments_are_inputs
+
+    rep.rule("C11.5", "the eigen solver is a function of its tensor arguments: no in-place operation lands in the caller's matrix (the ridge is formed out of place)")
+    rep.attempt("tensor_arguments_are_inputs", tensor_arguments_are_inputs, ctx, rep, "C11.5")
     rep.assume("finiteness, symmetry, the eigenvalue bound, commutation and equivariance of the result are numerical and NOT decided; C11.2 decides the scalar recurrence applied to each eigenvalue")
